@@ -150,3 +150,46 @@ def r14g_constant(ctx: Ctx) -> RuleReport:
                 f'reads module-level {bad}, which is written at {written[bad[0]]}: the result depends on earlier calls '
                 f'(and dict keys conflate 1, 1.0 and True)' if bad else (f'reads constant table(s) {reads} that are never written' if reads else ''))
     return rep
+
+
+# ---------------------------------------------------------------------------------------------
+FRESH_TREE_RESULTS = ['penman.transform:canonicalize_roles', 'penman.layout:configure', 'penman.layout:reconfigure', 'penman._parse:parse']
+
+
+@rule('R14r', 'a call documented as returning a new tree returns no branch list of its argument (rearrange and reset_variables work in place on what they are given)')
+def r14r(ctx: Ctx) -> RuleReport:
+    rep = RuleReport('R14r', r14r.title, floor=2)
+    eng = effects(ctx)
+
+    def closure(roots):
+        out, stack = set(), list(roots)
+        while stack:
+            o = stack.pop()
+            if o in out:
+                continue
+            out.add(o)
+            fs = set(o.fields) | (set(o.origin.fields) if o.origin is not None else set())
+            for f in fs:
+                for t in eng.getf(o, f):
+                    if t not in out:
+                        stack.append(t)
+        return out
+    for fq in FRESH_TREE_RESULTS:
+        if fq not in eng.funcs:
+            rep.undecided(f'{fq}: analysed by the points-to engine', 'penman/', 'function not found')
+            continue
+        fi = eng.funcs[fq]
+        rets = set()
+        for (f2, c2), objs in eng.ret_pts.items():
+            if f2 == fq:
+                rets |= objs
+        reach = closure(rets)
+        shared = sorted((o for o in reach if o.is_param is not None and o.is_param[0] == fq and o.kind == 'list'), key=lambda o: o.label)
+        key = f'{fq}: the result shares no list with an argument'
+        if shared:
+            o = shared[0]
+            rep.violation(key, fi.loc(), f'the returned tree can contain {o.label} (argument `{o.is_param[1]}`): the caller then holds two trees with common branch lists, and the documented '
+                          f'in-place operations on the result (layout.rearrange, Tree.reset_variables) silently rewrite the original as well')
+        else:
+            rep.ok(key, fi.loc(), f'{len(reach)} abstract objects reachable from the result')
+    return rep
